@@ -18,8 +18,9 @@ from .boot import VERIF, SRC, HOOK_ENV, src_fingerprint
 from .seeds import derive
 
 PY = sys.executable
-REPLAYS = os.path.join(VERIF, "replays")
-EVIDENCE = os.path.join(VERIF, "evidence")
+_OUT = os.environ.get("VOTESIM_OUT") or VERIF  # mutant/self-test runs must not overwrite the real tree's evidence
+REPLAYS = os.path.join(_OUT, "replays")
+EVIDENCE = os.path.join(_OUT, "evidence")
 
 
 def _env(hashseed, extra=None):
